@@ -145,6 +145,18 @@ func ratLeaves() []leaf {
 	add(new(big.Int).Add(pow2(64), b(1)), pow2(63))
 	add(bigOf("-1000000000000000000000000000000"), b(7))
 	add(b(1), pow2(64))
+	// the representation boundaries on both sides of the bar: numerators and denominators around 2^63 and 2^64
+	// (a reader or printer shortcut for "ratio of fixnums" has its edge exactly there)
+	one := b(1)
+	nums := []*big.Int{b(1), b(-1), b(3), new(big.Int).Sub(pow2(63), one), new(big.Int).Neg(new(big.Int).Sub(pow2(63), one)),
+		new(big.Int).Add(pow2(63), one), new(big.Int).Neg(new(big.Int).Add(pow2(63), one)), new(big.Int).Sub(pow2(64), one)}
+	dens := []*big.Int{new(big.Int).Add(pow2(62), one), new(big.Int).Sub(pow2(63), b(2)), pow2(63), new(big.Int).Add(pow2(63), b(2)),
+		new(big.Int).Sub(pow2(64), b(3)), pow2(64), new(big.Int).Add(pow2(64), b(3))}
+	for _, n := range nums {
+		for _, d := range dens {
+			add(n, d)
+		}
+	}
 	return out
 }
 
